@@ -177,6 +177,93 @@ func dec3(a [3]int64) int {
 }
 `
 
+// genB draws a dense scenario for compiled programs: every channel has one
+// owner task that does all sends on it (plain or as select cases) and usually
+// closes it at the end, so closes are legal by construction and receives after
+// close (plain, comma-ok, in blocking selects and in selects with default) are
+// common; channels used in selects are buffered.
+func genB(rng *sim.Rng) *Scenario {
+	sc := &Scenario{}
+	nch := rng.Range(2, 3)
+	nt := rng.Range(2, 4)
+	for i := 0; i < nch; i++ {
+		sc.Chans = append(sc.Chans, ChanSpec{Cap: rng.Range(1, 3), Elem: []int{8, 8, 4, 16, 24, 0}[rng.Intn(6)]})
+		sc.Perm = append(sc.Perm, i)
+	}
+	// one unbuffered channel used by plain operations only
+	plain := -1
+	if rng.Bool() {
+		sc.Chans = append(sc.Chans, ChanSpec{Cap: 0, Elem: []int{8, 24, 16}[rng.Intn(3)]})
+		sc.Perm = append(sc.Perm, nch)
+		plain = nch
+		nch++
+	}
+	owner := make([]int, nch)
+	for i := range owner {
+		owner[i] = rng.Intn(nt)
+	}
+	val := 0
+	sc.Tasks = make([][]Op, nt)
+	for t := 0; t < nt; t++ {
+		n := rng.Range(3, 6)
+		for i := 0; i < n; i++ {
+			c := rng.Intn(nch)
+			switch r := rng.Intn(10); {
+			case r < 2 && owner[c] == t && c == plain:
+				val++
+				sc.Tasks[t] = append(sc.Tasks[t], Op{K: "send", Ch: c, Val: val})
+			case r < 4 && owner[c] == t:
+				// owners mostly send without blocking, so that they reach their close
+				val++
+				if c == plain || rng.Intn(4) == 0 {
+					sc.Tasks[t] = append(sc.Tasks[t], Op{K: "send", Ch: c, Val: val})
+				} else {
+					sc.Tasks[t] = append(sc.Tasks[t], Op{K: "select", Default: true, Cases: []Case{{Ch: c, Send: true, Val: val}}})
+				}
+			case r < 5 && owner[c] != t:
+				sc.Tasks[t] = append(sc.Tasks[t], Op{K: "recv", Ch: c})
+			case r < 9:
+				op := Op{K: "select", Default: rng.Intn(3) != 0}
+				for k, m := 0, rng.Range(1, 3); k < m; k++ {
+					cc := rng.Intn(nch)
+					if cc == plain {
+						cc = 0
+					}
+					cs := Case{Ch: cc}
+					if owner[cc] == t && rng.Bool() {
+						val++
+						cs.Send, cs.Val = true, val
+					}
+					if rng.Intn(15) == 0 {
+						cs = Case{Ch: -1}
+					}
+					op.Cases = append(op.Cases, cs)
+				}
+				sc.Tasks[t] = append(sc.Tasks[t], op)
+			default:
+				sc.Tasks[t] = append(sc.Tasks[t], Op{K: []string{"len", "cap"}[rng.Intn(2)], Ch: c})
+			}
+		}
+	}
+	for c := 0; c < nch; c++ {
+		if rng.Intn(10) < 9 {
+			sc.Tasks[owner[c]] = append(sc.Tasks[owner[c]], Op{K: "close", Ch: c})
+		}
+	}
+	// after the closes: a few more receives by everybody (drain, then zero value with ok=false)
+	for t := 0; t < nt; t++ {
+		for k, m := 0, rng.Range(1, 3); k < m; k++ {
+			c := rng.Intn(nch)
+			if rng.Bool() && c != plain {
+				sc.Tasks[t] = append(sc.Tasks[t], Op{K: "select", Default: true, Cases: []Case{{Ch: c}}})
+			} else {
+				sc.Tasks[t] = append(sc.Tasks[t], Op{K: "recv", Ch: c})
+			}
+		}
+	}
+	return sc
+}
+
 func genProgram(sc *Scenario) string {
 	var sb strings.Builder
 	sb.WriteString("package main\n\nvar nilch chan int\n" + progHelpers + "\nfunc main() {\n")
@@ -409,7 +496,12 @@ func (prop) ExtraPhase(tier string, seed uint64, deadline time.Time) (*driver.Ex
 	var sample any
 	for pi := 0; pi < nprog && time.Now().Before(deadline); pi++ {
 		ch := sim.NewChoices(sim.RunSeed(seed^0xb1a7e5, uint64(pi)))
-		sc := sanitizeB(prop{}.Generate(ch.Rng(), tier, pi).(*Scenario))
+		var sc *Scenario
+		if pi%4 == 3 {
+			sc = sanitizeB(prop{}.Generate(ch.Rng(), tier, pi).(*Scenario))
+		} else {
+			sc = genB(ch.Rng())
+		}
 		src := genProgram(sc)
 		dir := filepath.Join(bTmp, fmt.Sprintf("prog-%d", pi))
 		bin, err := buildProgram(dir, src)
